@@ -304,6 +304,16 @@ def step (st : St) (toks : List String) : St × String :=
     | .error e => (st, fmtErr e)
     | .ok g =>
       (st, s!"ok insts={";".intercalate (g.insts.map fmtInst)} adj={fmtAssoc g.adj false} deps={fmtAssoc g.deps true}")
+  | "subst.env" :: rest =>
+    -- `StudyEnvironment.apply_environment`: labels, then dependencies, then substitutions
+    let item := unhex (kvOf rest "text")
+    let pass (item : List Char) (kvs : List (List Char × List Char)) : List Char :=
+      kvs.foldl (fun s kv => replaceAll s (tok kv.1) kv.2) item
+    let item := if item.isEmpty then item else
+      pass (pass (pass item (pairs (kvOf rest "labels"))) (pairs (kvOf rest "deps"))) (pairs (kvOf rest "vars"))
+    (st, hex item)
+  | ["subst.replace", s, old, new] => (st, hex (replaceAll (unhex s) (unhex old) (unhex new)))
+  | ["subst.findws", s] => (st, ",".intercalate ((usedSpaces (unhex s)).map hex))
   | ["exp.sanitize", s] => (st, hex (sanitize (unhex s)))
   | ["exp.safepath", base, args] => (st, hex (makeSafePath (unhex base) (hexList args)))
   | _ => (st, "bad-op")
@@ -327,7 +337,7 @@ def stepLine (st : DrvState) (line : String) : DrvState × String :=
       ({ st with exec := r.1 }, r.2)
     else if t.startsWith "sched." then (st, SchedDrv.step toks)
     else if t.startsWith "csv." || t.startsWith "lock." then (st, CsvDrv.step toks)
-    else if t.startsWith "exp." then
+    else if t.startsWith "exp." || t.startsWith "subst." then
       let r := ExpDrv.step st.exp toks
       ({ st with exp := r.1 }, r.2)
     else (st, "bad-op")
